@@ -359,6 +359,9 @@ func genC03(rng *rand.Rand, seed uint64, tier string) *Script {
 			}
 		}
 		ops = append(ops, Op{K: "block", Dt: pick(rng, 1, 5, 5), Prop: rng.IntN(3), Byz: rng.IntN(8) == 0})
+		for i, n := 0, pick(rng, 0, 1, 1, 3); i < n; i++ {
+			ops = append(ops, genSdbOp(rng)) // StateDB-level sequences over the state reached so far
+		}
 	}
 	ops = append(ops, Op{K: "block", Dt: 5})
 	s.Ops = ops
